@@ -36,7 +36,15 @@ type XObject struct {
 
 // NewXObject returns a new object with the given properties
 func NewXObject(properties map[string]XValue) *XObject {
-	return NewXLazyObject(func() map[string]XValue { return properties })
+	x := &XObject{
+		marshalDefault:    false,
+		marshalDeprecated: true,
+	}
+
+	// initialized eagerly so that objects which are shared between goroutines, e.g. package level
+	// values like XObjectEmpty, are never written to after they are created
+	x.initialize(properties)
+	return x
 }
 
 // NewXLazyObject returns a new lazy object with the source function and default
@@ -224,16 +232,18 @@ func (x *XObject) hasDefault() bool {
 
 func (x *XObject) ensureInitialized() {
 	if x.props == nil {
-		props := x.source()
+		x.initialize(x.source())
+	}
+}
 
-		x.def = x
-		x.props = make(map[string]XValue, len(props))
-		for p, v := range props {
-			if p == serializeDefaultAs {
-				x.def = v
-			} else {
-				x.props[p] = v
-			}
+func (x *XObject) initialize(props map[string]XValue) {
+	x.def = x
+	x.props = make(map[string]XValue, len(props))
+	for p, v := range props {
+		if p == serializeDefaultAs {
+			x.def = v
+		} else {
+			x.props[p] = v
 		}
 	}
 }
